@@ -30,6 +30,11 @@ uint64_t st_cb_seed;
 
 #define ST_CODE(verdict) ((RegisterAccessCode)((verdict) & 7u))
 #define ST_REFUSES(verdict) (((verdict) & 7u) != 0u)
+/* a READ callback that fails does not claim anything about the content: it
+ * reports any code but RANGE/INVALID (those two, which register_sanitise takes
+ * for "content is bad", are mapped to IO_ERROR) */
+#define ST_RD_CODE(verdict) \
+  ((ST_CODE(verdict) == REG_ACCESS_RANGE || ST_CODE(verdict) == REG_ACCESS_INVALID) ? REG_ACCESS_IO_ERROR : ST_CODE(verdict))
 
 bool st_validator(const RegisterEntry *e, RegisterValue v)
 {
@@ -65,7 +70,7 @@ RegisterAccess st_area_read(const RegisterArea *a, RegisterAtom *dest,
   CHECK(a != NULL && dest != NULL, "area read: pointers are not NULL");
   CHECK(n >= 1u && n <= 4u, "area read: typed access transfers one register (1..4 words)");
   CHECK(offset <= a->size && n <= a->size - offset, "area read: transfer lies inside the area");
-  rv.code = ST_CODE(st_rd_verdict);
+  rv.code = ST_RD_CODE(st_rd_verdict);
   rv.address = st_rd_address;
   if (rv.code == REG_ACCESS_SUCCESS) {
     rv.address = 0u;
